@@ -62,6 +62,7 @@ fn main() {
         "tf" => tf::drive_tf(&mut *out, seed, thorough, arg(&args, "--cfg").unwrap_or("?")),
         "stream-end64" => chacha::drive_end64(&mut *out, seed, thorough),
         "stream-rand" => chacha::drive_histories(&mut *out, seed, thorough, true),
+        "stream-big" => chacha::drive_big(&mut *out, seed, thorough),
         d => {
             eprintln!("unknown driver {}", d);
             std::process::exit(2);
